@@ -167,6 +167,13 @@ def evaluate(mod, workers, cases):
     for k, c in enumerate(cases):
         a, b = spans[k]
         ibc = {name: impl[name][k] for name in impl}
+        hooks = sorted({r['hook'] for r in ibc.values() if isinstance(r, dict) and r.get('hook')})
+        if hooks:
+            # a private helper the harness instruments is gone / changed: the correspondence no longer
+            # checks for this case (no failing input; the remaining public-API cases are the search)
+            out.append((c, ibc, answers[a:b], [{'kind': 'correspondence', 'cfg': '-', 'finding': None,
+                                                'what': 'instrumented private helper no longer matches: %s' % '; '.join(hooks)}]))
+            continue
         try:
             probs = mod.judge(c, ibc, answers[a:b])
         except Exception as exc:  # noqa
@@ -255,12 +262,21 @@ def run_check(prop, tier, seed):
                     samples.append({'case': case, 'implementation': next(iter(ibc.values()))})
                 if not probs:
                     continue
+                corr = [p for p in probs if p['kind'] == 'correspondence']
+                if corr:
+                    # broken instrumentation: reported once (no failing input), the search goes on
+                    dist['correspondence-broken'] = dist.get('correspondence-broken', 0) + 1
+                    if not any(all(q['kind'] == 'correspondence' for q in v[3]) for v in violations):
+                        violations.append((case, ibc, answers, corr))
+                    probs = [p for p in probs if p['kind'] != 'correspondence']
+                    if not probs:
+                        continue
                 fids = {p.get('finding') for p in probs}
                 if all(f in known for f in fids):
                     for f in fids:
                         known_hits.setdefault(f, case)
                     continue
-                if len(violations) < 5:
+                if len(violations) < 6:
                     kinds = {p['kind'] for p in probs if p.get('finding') not in known}
 
                     def same(ps, kinds=kinds):
@@ -277,7 +293,7 @@ def run_check(prop, tier, seed):
             if len(batch) >= BATCH:
                 flush(batch)
                 batch = []
-                if len(violations) >= 5:
+                if len(violations) >= 6:
                     break
         if batch:
             flush(batch)
